@@ -13,10 +13,13 @@ def instances():
                             unwind=4, timeout=400, tier="quick", mem_gb=12,
                             bounds="raised kind and clause list are instance parameters (6 kinds x 6 clause lists of <= 2 clauses)",
                             inputs="whether the selected handler itself raises; whether the block is nested in another"))
+    QR = {(1, 2, "0040"), (2, 2, "4000"), (1, 1, "0004"), (1, 2, "0100"), (1, 2, "3000"), (1, 2, "0000")}
     for lo, li in ((1, 1), (1, 2), (2, 2), (2, 3), (1, 3)):
-        out.append(Inst(id="c07.run.l%d%d" % (lo, li), props=["C07", "C06", "C01"], harness="h_run.cpp", entry="c07_run", tus=CORE_TUS, defs=["VX_LO=%d" % lo, "VX_LI=%d" % li],
-                        stubs=FMT_STUBS + CTX_STUBS + CONTAINER_STUBS, unwind=6, unwindset=EMPTY_DECL_UNWIND, timeout=600, quick_also=["C06"] if (lo, li) == (1, 2) else [],
-                        tier="quick" if (lo, li) in ((1, 2), (2, 2), (1, 1)) else "thorough",
-                        bounds="real Executable::run / Statement::execute / onRuntimeError over a list of 3 statements (one with a chained successor); execution level 2; two loops on the control stack started at levels %d and %d" % (lo, li),
-                        inputs="per statement: nothing / break / continue / return / raise; a return pending at entry"))
+        for acts in ("0000", "0100", "0010", "2000", "3000", "0003", "4000", "0400", "0040", "0004", "0140"):
+            out.append(Inst(id="c07.run.l%d%d.a%s" % (lo, li, acts), props=["C07", "C06", "C01"], harness="h_run.cpp", entry="c07_run", tus=CORE_TUS,
+                            defs=["VX_LO=%d" % lo, "VX_LI=%d" % li, 'VX_ACTS="%s"' % acts],
+                            stubs=FMT_STUBS + CTX_STUBS + CONTAINER_STUBS, unwind=6, unwindset=EMPTY_DECL_UNWIND, timeout=600, quick_also=["C06"] if (lo, li, acts) in QR else [],
+                            tier="quick" if (lo, li, acts) in QR else "thorough",
+                            bounds="real Executable::run / Statement::execute / onRuntimeError over a list of 3 statements (the second with a chained successor); execution level 2; loops on the control stack started at levels %d and %d; script %s (per step s0 s1 s1b s2: 0 nothing 1 break 2 continue 3 return 4 raise)" % (lo, li, acts),
+                            inputs="a return pending at entry"))
     return out
